@@ -321,7 +321,11 @@ def gen_lean():
         "def readerHeadTests : List (String × Cond) := [",
         ",\n".join(f"  ({_lean_str(f)}, {c})" for f, c in tests),
         "]",
-        "end BiotiteModel.Gen.C06", ""]
+        "/-! Fingerprints of every anchored function and the literals the model hard-codes (props/c06_gen.py). -/"]
+    from props import c06_gen
+    fps = c06_gen.fingerprints(paths.SRC)
+    body += c06_gen.lean_defs(fps, c06_gen.named_constants(paths.SRC, fps), "Gen")
+    body += ["end BiotiteModel.Gen.C06", ""]
     return {"BiotiteModel/Gen/C06.lean": "\n".join(body)}
 
 
